@@ -53,6 +53,7 @@ Response(e) ==
         v       == IF refused THEN "ok"
                    ELSE IF obs.kind # "ok" THEN "Robust.Answered"
                    ELSE IF ~(ListedNames(d, obs.listing) \subseteq Visible(d)) THEN "Robust.OnlyVisible"
+                   ELSE IF ~LinkItemsListed(d, obs.listing) THEN "Robust.HealthyListed"   \* an item of a HEALTHY link file is gone
                    ELSE "ok"
         missing == IF obs.kind = "ok" THEN Healthy(d) \ ListedNames(d, obs.listing) ELSE {}
     IN /\ p' = [p EXCEPT !.out = mdl] /\ pc' = "done" /\ UNCHANGED <<d, raw, j, pred, seen>>
